@@ -78,6 +78,16 @@ def gen_queue_cases(tier, seed):
             if path != "/" and any(c in ("", ".", "..") for c in path[1:].split("/")):
                 clean = False
             s.add("symlink %s %s %d" % (hexs(Q + "/" + nm), hexs(tg), wc.CLOCK0 - rng.choice([0, 5])))
+        if rng.random() < 0.25:
+            # entries that are not symbolic links at all: a stray regular file, a sub-directory (hand edits, backups)
+            nm = rng.choice(["3", "4", "12", "notes"])
+            if nm not in used:
+                if rng.random() < 0.5:
+                    s.put(Q + "/" + nm, "stray")
+                else:
+                    s.mkdirp(Q + "/" + nm)
+                used = used + [nm]
+                clean = clean and nm.isdigit()
         s.add("start %s %d %s" % (s.cfgid, rng.choice([wc.CPL, 1, 3, 60]), hexs(wc.CFG_PATH)))
         s.timeout()
         s.timeout()
